@@ -10,6 +10,7 @@ Ref(c) == SubSeq(Spell(c.seq, c.walk), c.ps + 1, c.pe)
 Verdict(c) ==
   IF c.status # "ok" THEN "realign_failed_" \o c.status
   ELSE IF c.missing THEN "record_missing"
+  ELSE IF ~c.in_order THEN "records_not_one_per_input_record_in_input_order"
   ELSE IF \E k \in {1, 2, 3, 4, 5, 6, 7, 8, 9, 12} : c.ocols[k] # c.icols[k] THEN "other_column_altered"
   ELSE IF c.oopt # c.iopt THEN "optional_fields_altered"
   ELSE IF c.icgpos # 0 /\ c.ocgpos # c.icgpos THEN "cigar_field_moved_among_the_optional_fields"      \* rewritten in place
